@@ -258,7 +258,7 @@ func (m *mergedIterator) initQueue() {
 		if it.Valid() {
 			m.pq = append(m.pq, &item{
 				it:    it,
-				key:   it.Key(),
+				key:   cloneKey(it.Key()),
 				index: i,
 			})
 			it.Next()
@@ -284,7 +284,7 @@ func (m *mergedIterator) HasNext() bool {
 		// if it has value, push back queue and adjust priority
 		it := item.it
 		if it.Valid() {
-			item.key = it.Key()
+			item.key = cloneKey(it.Key())
 			m.pq.Push(item)
 			m.pq.update(item)
 
@@ -306,6 +306,14 @@ type item struct {
 	key []byte
 
 	index int
+}
+
+// cloneKey copies a key returned by a trie iterator: the iterator reuses its key buffer,
+// so the slice must not be kept across Next().
+func cloneKey(key []byte) []byte {
+	k := make([]byte, len(key))
+	copy(k, key)
+	return k
 }
 
 // getKey clones the key and returns it.
